@@ -69,6 +69,96 @@ func checkC10(c *vkit.Ctx) {
 	lab.Wipe()
 }
 
+// c10ReadOnly: Clean run by an ordinary user; one snapshot file that needs a rewrite is
+// read-only. Whatever Clean does about that file (stop, skip it), no file may lose,
+// duplicate or alter a surviving entry, and a file that needs neither pruning nor sorting
+// is not written. Returns false when the case has no file that needs a rewrite.
+func c10ReadOnly(c *vkit.Ctx, lab *Lab, lc *LabCase, own *Owned, r *rand.Rand, in map[string]any, deletes, sorts bool) bool {
+	pr := c.Rand("ro-perm", int(vkit.Hash(fmt.Sprint(in))%1000000))
+	var files []string
+	for f := range own.FileOwn {
+		files = append(files, f)
+	}
+	sort.Strings(files)
+	for _, f := range files {
+		ents, torn := vkit.ReadSnapFile(f)
+		if len(torn) > 0 || len(ents) < 2 {
+			continue
+		}
+		pr.Shuffle(len(ents), func(a, b int) { ents[a], ents[b] = ents[b], ents[a] })
+		os.WriteFile(f, []byte(vkit.RenderSnapFile(ents)), 0o644)
+	}
+	if !sorts && !deletes {
+		return false
+	}
+	// the read-only one: the first file (in name order) - Clean examines files in that order
+	if len(files) < 2 {
+		return false
+	}
+	ro := files[0]
+	res := lab.P.RunChild(RunOpt{PkgDir: lab.PkgDir, Scenario: lc.Scenario, Update: lc.Update, AsNobody: true, Writable: true, ReadOnly: []string{ro}})
+	if !res.Complete {
+		c.Count("read_only_variant_child_incomplete", 1)
+		return false
+	}
+	a := Analyze(res, lab.Src)
+	for _, cr := range a.Calls {
+		if cr.Outcome != vkit.Passed {
+			c.Count("read_only_variant_premise_failed", 1)
+			return false
+		}
+	}
+	addr := map[[2]string]bool{}
+	multi := map[string]bool{}
+	for _, cr := range a.Calls {
+		if !cr.Call.Standalone() {
+			addr[[2]string{cr.Path, vkit.SlotID(cr.Test, cr.K)}] = true
+			multi[cr.Path] = true
+		}
+	}
+	key := func(es []vkit.SnapEntry) string {
+		out := make([]string, len(es))
+		for i, e := range es {
+			out[i] = e.ID + "\x00" + e.Body
+		}
+		sort.Strings(out)
+		return fmt.Sprint(out)
+	}
+	for f := range multi {
+		pre, tp := lab.preEntries(res, f)
+		post, torn := vkit.ReadSnapFile(f)
+		if len(tp) > 0 {
+			continue
+		}
+		if len(torn) > 0 {
+			c.Violate("file-torn-after-clean", "", strings.Join(torn, "; "), in)
+			return true
+		}
+		var want []vkit.SnapEntry
+		hasStale := false
+		for _, e := range pre {
+			if !addr[[2]string{f, e.ID}] {
+				hasStale = true
+				if deletes {
+					continue
+				}
+			}
+			want = append(want, e)
+		}
+		if k := key(post); k != key(pre) && k != key(want) {
+			c.Violate("rewrite-changed-surviving-entries", "", fmt.Sprintf("Clean by an unprivileged user, %s read-only: %s (UPDATE_SNAPS=%q sort=%v) before %v, after %v, survivors would be %v", filepath.Base(ro), filepath.Base(f), lc.Update, lc.Sort, entryIDs(pre), entryIDs(post), entryIDs(want)), in)
+			return true
+		}
+		needWrite := (deletes && hasStale) || (sorts && !naturalSorted(entryIDs(pre)))
+		if !needWrite && lab.written(res, f) {
+			c.Violate("write-decision", "", fmt.Sprintf("Clean by an unprivileged user, %s read-only: %s needed neither pruning nor sorting but was written", filepath.Base(ro), filepath.Base(f)), in)
+			return true
+		}
+	}
+	c.Count("clean_runs_by_unprivileged_user_with_a_read_only_file", 1)
+	return true
+}
+
 func runC10(c *vkit.Ctx, lab *Lab, r *rand.Rand, i int) {
 	lab.Wipe()
 	lc := lab.Gen(r, LabOpts{Hostile: true, Fuzz: true, Parallel: true})
@@ -85,6 +175,13 @@ func runC10(c *vkit.Ctx, lab *Lab, r *rand.Rand, i int) {
 	base := lab.snapshotTree()
 	deletes, sorts := vkit.CleanPerm(vkit.Mode{UpdateVar: lc.Update}, lc.Sort)
 	in := labSample(lc)
+	if r.IntN(8) == 0 && os.Getenv("VERIF_NO_NOBODY") == "" {
+		if c10ReadOnly(c, lab, lc, own, r, in, deletes, sorts) {
+			c.Case(vkit.Hash("ro", fmt.Sprint(in)), true)
+			return
+		}
+		lab.restoreTree(base)
+	}
 	finals := []map[string]string{}
 	nontrivial := false
 	for variant := 0; variant < 2; variant++ {
